@@ -14,7 +14,7 @@ pub const DEF: PropDef = PropDef {
     run,
     replay,
     level: "fault_enumeration",
-    rule: "fault enumeration on transport messages: (pattern class interactive/one-way, cipher, hash, DH, backend default / ring-first, direction, payload length 0, 1, 33, 65519 and one entry per configuration of a ladder 2..17, 100, 1000, 4080, 4096, 9000, 12288, 16384, 32768, 65503, 65518, number of genuine messages already exchanged, and a session history with no rekey / a synchronised manual rekey of one direction only / manual then automatic) x forgery: single-bit flips (boundary + random; ALL bits in thorough), every truncation incl. < 16 bytes, extensions, reflection to the sender, same-index message of a second session with other keys, a later message delivered early, a replay of an accepted message, the genuine message after the receiver was repositioned (set_receiving_nonce) to another message number - 1 or 2 back, +1, +2^32, ^2^40, ^2^56, ^2^63 -, random and all-zero byte strings of 16 / 17 / message length; stateless mode: a genuine message for nonce n presented under n' != n with n' = n ^ (1<<b) for all 64 b, boundary values and random 64-bit values. Oracle: the forged delivery returns Err, and afterwards the genuine message for this session, direction and nonce is accepted and returns exactly the written payload. Non-trivial = a forged/misdirected delivery against a session that accepts the genuine message; distinct by (config, forgery)",
+    rule: "fault enumeration on transport messages: (pattern class interactive/one-way, cipher, hash, DH, backend default / ring-first, direction, payload length 0, 1, 33, 65519 and one entry per configuration of a ladder 2..17, 100, 1000, 4080, 4096, 9000, 12288, 16384, 32768, 65503, 65518, number of genuine messages already exchanged, and a session history with no rekey / a synchronised manual rekey of one direction only / manual then automatic) x forgery: single-bit flips (boundary + random; ALL bits in thorough), every truncation incl. < 16 bytes, extensions, reflection to the sender, same-index message of a second session with other keys, a later message delivered early, a replay of an accepted message, the genuine message after the receiver was repositioned (set_receiving_nonce) to another message number - 1 or 2 back, +1, +2^32, ^2^40, ^2^56, ^2^63, the byte-swapped / half-swapped / bit-reversed number -, random and all-zero byte strings of 16 / 17 / message length; stateless mode: a genuine message for nonce n presented under n' != n with n' = n ^ (1<<b) for all 64 b, boundary values and random 64-bit values. Oracle: the forged delivery returns Err, and afterwards the genuine message for this session, direction and nonce is accepted and returns exactly the written payload. Non-trivial = a forged/misdirected delivery against a session that accepts the genuine message; distinct by (config, forgery)",
     technique: "fault enumeration with accept-iff-genuine oracle over both cipher backends; proptest for random forgeries and nonce pairs (+ libFuzzer target tr_forge in the thorough tier: coverage-guided XOR masks / cuts / extensions over the genuine transport message, judged by the same oracle)",
     assumptions: &["cryptographic strength is not tested: forgeries are alterations of genuine traffic, not attempts to find tag collisions"],
     panic_is_violation: false,
@@ -330,7 +330,7 @@ fn oracle(c: &Case, acc: &mut Acc) -> CaseResult {
             },
             Forgery::Reposition(k) => {
                 let n = r.receiving_nonce();
-                let n2 = match *k % 8 {
+                let n2 = match *k % 12 {
                     0 if n >= 1 => n - 1,
                     1 if n >= 2 => n - 2,
                     2 => n.wrapping_add(1 << 32),
@@ -338,6 +338,11 @@ fn oracle(c: &Case, acc: &mut Acc) -> CaseResult {
                     4 => n ^ (1 << 63),
                     5 => n.wrapping_add(1),
                     6 => n ^ (1 << 40),
+                    // other encodings of the same number: byte order, halves, bit order
+                    7 => n.swap_bytes(),
+                    8 => n.rotate_left(32),
+                    9 => n.reverse_bits(),
+                    10 => (n as u32).swap_bytes() as u64,
                     _ => 0,
                 };
                 if n2 == n || n2 == u64::MAX {
@@ -438,7 +443,7 @@ pub fn run(ctx: &Ctx) {
                         f.push(Forgery::Extend(k));
                     }
                 }
-                f.extend([Forgery::Reflect, Forgery::OtherSession, Forgery::OtherSessionSameStatics, Forgery::Early, Forgery::Replay, Forgery::Garbage(total), Forgery::Garbage(16), Forgery::Garbage(0), Forgery::Zeros(total), Forgery::Zeros(16), Forgery::Zeros(17), Forgery::Reposition((ci + pk) as u8), Forgery::Reposition((ci + pk + 3) as u8), Forgery::Reposition((ci * 3 + pk + 5) as u8)]);
+                f.extend([Forgery::Reflect, Forgery::OtherSession, Forgery::OtherSessionSameStatics, Forgery::Early, Forgery::Replay, Forgery::Garbage(total), Forgery::Garbage(16), Forgery::Garbage(0), Forgery::Zeros(total), Forgery::Zeros(16), Forgery::Zeros(17), Forgery::Reposition((ci + pk) as u8), Forgery::Reposition((ci + pk + 3) as u8), Forgery::Reposition((ci * 3 + pk + 5) as u8), Forgery::Reposition(7 + ((ci + pk) % 4) as u8), Forgery::Reposition(7 + ((ci + pk + 1) % 4) as u8)]);
                 f.dedup();
                 for (fi, forgery) in f.into_iter().enumerate() {
                     for stateless in [false, true] {
@@ -457,6 +462,13 @@ pub fn run(ctx: &Ctx) {
                 }
                 for b in 0..64 {
                     cases.push(Case { spec: spec.clone(), r_to_i, plen: if b % 8 == 0 { 0 } else { 5 }, prior: 0, forgery: Forgery::Nonce(*base, base ^ (1u64 << b)), stateless: true, fbuf: (b % 6) as u8, jump: 0, again: (b % 3) as u8 });
+                }
+            }
+            for a in [1u64, 2, 0x0102, 0x0102_0304_0506_0708, 1 << 56, 0xFF00] {
+                for b in [a.swap_bytes(), a.rotate_left(32), a.reverse_bits(), (a as u32).swap_bytes() as u64] {
+                    if b != a && b != u64::MAX && a != u64::MAX {
+                        cases.push(Case { spec: spec.clone(), r_to_i, plen: 5, prior: 0, forgery: Forgery::Nonce(a, b), stateless: true, fbuf: (a % 4) as u8, jump: 0, again: 0 });
+                    }
                 }
             }
             for (a, b) in [(0u64, 1u64), (1, 0), (0xFFFF_FFFF, 0x1_0000_0000), (0x1_0000_0000, 0), (u64::MAX - 1, u64::MAX), (u64::MAX - 1, 0), (0, u64::MAX), (1 << 32, 1 << 33), (256, 1)] {
